@@ -3,6 +3,7 @@ C01 — Broker delivers each message to exactly the matching subscriptions, in o
 -/
 import Proofs.Lemmas.Router.Frame
 import Proofs.Lemmas.Router.Rp3_ReqRun
+import Proofs.Lemmas.Router.Rp5_Reach
 import Proofs.Props.C12
 namespace C01
 open Router Router.Rp3 CommitLog
@@ -399,14 +400,118 @@ theorem publish_keeps_cursors_issued (s s' : RState) (hi : DLInv s) (id : Nat) (
     the request ends up right behind them. With `log_content` (each accepted matching publish is
     one log entry) and `forward_carries_entry` this is "exactly the matching messages accepted
     after the subscription took effect, once, in acceptance order".
-    Missing for the unrestricted run-level statement: that `consume` / `park` /
-    `notifications` / the graveyard thread each request unchanged from one sweep to the next
-    (RequestConservation) and that every other step satisfies the `other` premise (CursorSound). -/
+    Missing for the unrestricted run-level statement: the composition of this theorem with the two
+    global invariants that are now proved — `C03.request_conservation` (each (connection, filter) has
+    exactly one request, in tracker / waiters / notifications / saved session) and `cursor_sound`
+    (below: every cursor held is issued; `req_at_of_reachable` gives the start premise) — i.e. that
+    `consume` / `park` / `notifications` / the graveyard hand THE request of this filter from one
+    sweep to the next with its cursor unchanged, and the retention proviso (the cursor's segment is
+    not evicted), which is a genuine restriction of the code. -/
 theorem delivery_is_prefix_partial (idx : Nat) (s s2 : RState) (req req2 : DataRequest) (offs : List Nat)
     (hat : ReqAt idx s req.cursor) (hrun : ReqRun idx s req offs s2 req2) :
     offs = List.range' req.cursor.2 offs.length ∧ req2.cursor.2 = req.cursor.2 + offs.length ∧
     ReqAt idx s2 req2.cursor :=
   reqRun_contiguous hrun hat
+
+/-! ### `CursorSound`: every cursor the router holds was issued by its log -/
+
+/-- C01 / C17 `CursorSound`. In every reachable state whose filter logs are below the no-overflow
+    bound of the C13 read theorems (`NoOverflow`: no log is within `MAX_INFLIGHT +
+    max_outgoing_packet_count` entries of `2^64`; the logs only grow, so the bound then held all
+    along the run), every cursor the router holds is a cursor ISSUED (C13) by the log it is used on:
+    * the cursor of every data request — tracked, parked in a waiter list, notified — for the log
+      `native[filter_idx]`, and a request of a shared subscription has the filter index of its
+      group's path (`gpath`: `<share>/<path>` ↦ `<path>`);
+    * every cursor recorded in an outgoing window entry `(pkid, filter_idx, Some cursor)`;
+    * the cursor of every request of a saved session;
+    * the cursor of every shared group, for the log of the group's path (which exists).
+    Sources: the tail cursor of a new subscription, the continuation of a read, the entry tags of a
+    read (window), `atGroupCursor` / `rejoinGroups` / `rewindRequests` copying such cursors between
+    requests, groups and windows; appends and evictions keep issued cursors issued. -/
+theorem cursor_sound {cfg : Config} (h1 : 1 ≤ cfg.maxSegmentSize) (h2 : 1 ≤ cfg.maxSegmentCount) {s : RState}
+    (hr : Reachable cfg s) (hno : NoOverflow s) :
+    (∀ r, allReqs s r →
+      (∃ fd, s.datalog.native[r.filterIdx]? = some fd ∧ Issued (logC fd.log) r.cursor) ∧
+      ∀ g, r.group = some g → s.datalog.filterIdx? (gpath g) = some r.filterIdx) ∧
+    (∀ id c, getConn s id = some c → ∀ e ∈ c.out.inflight, ∀ cur, e.2.2 = some cur →
+      ∃ fd, s.datalog.native[e.2.1]? = some fd ∧ Issued (logC fd.log) cur) ∧
+    (∀ cid ss, (cid, some ss) ∈ s.graveyard → ∀ r ∈ ss.tracker.requests,
+      ∃ fd, s.datalog.native[r.filterIdx]? = some fd ∧ Issued (logC fd.log) r.cursor) ∧
+    (∀ g grp, (g, grp) ∈ s.shared →
+      ∃ i fd, s.datalog.filterIdx? (gpath g) = some i ∧ s.datalog.native[i]? = some fd ∧ Issued (logC fd.log) grp.cursor) := by
+  have h := CS.reachable h1 h2 hr hno
+  refine ⟨fun r hr' => h.req r hr', fun id c hc e he cur hcur => h.win e.2.1 cur ⟨id, c, hc, e, he, rfl, hcur⟩,
+    fun cid ss hm r hr' => (h.grv (cid, some ss) hm ss rfl r hr').1, fun g grp hm => ?_⟩
+  obtain ⟨i, a, fd, b, c⟩ := h.grp (g, grp) hm
+  exact ⟨i, fd, a, b, c⟩
+
+/-- what `allReqs` and `NoOverflow` say -/
+theorem allReqs_noOverflow_spec (s : RState) (r : DataRequest) :
+    (allReqs s r ↔
+      (∃ id c, getConn s id = some c ∧ r ∈ c.tracker.requests) ∨
+      (∃ fd ∈ s.datalog.native, ∃ w ∈ fd.waiters, w.2 = r) ∨ (∃ n ∈ s.notifications, n.2 = r)) ∧
+    (NoOverflow s ↔ ∀ fd ∈ s.datalog.native, ∀ hist, Rep (logC fd.log) hist →
+      hist.length + (MAX_INFLIGHT + s.config.maxOutgoingPacketCount) < U64) := ⟨Iff.rfl, Iff.rfl⟩
+
+/-- C01.2 `sweep_reads_next_entries` for reachable states, WITHOUT the `Issued` hypothesis: for a
+    request `req` in the tracker of a live connection, the log `native[req.filter_idx]` exists, is
+    well formed (represents an append history `hist`) and a read of `n ≤ MAX_INFLIGHT +
+    max_outgoing_packet_count` entries from `req.cursor` returns the next entries of `hist` from
+    the cursor's position, with contiguous offsets, and an issued continuation. -/
+theorem sweep_reads_next_entries_reachable {cfg : Config} (h1 : 1 ≤ cfg.maxSegmentSize) (h2 : 1 ≤ cfg.maxSegmentCount)
+    {s : RState} (hr : Reachable cfg s) (hno : NoOverflow s) {id : Nat} {c : Conn} {req : DataRequest}
+    (hc : getConn s id = some c) (hreq : req ∈ c.tracker.requests) (n : Nat)
+    (hn : n ≤ MAX_INFLIGHT + s.config.maxOutgoingPacketCount) :
+    ∃ fd hist, s.datalog.native[req.filterIdx]? = some fd ∧ Rep (logC fd.log) hist ∧
+      (fd.log.readv req.cursor n).1.map (·.1) = (hist.drop (cursorAbs (logC fd.log) req.cursor)).take n ∧
+      (fd.log.readv req.cursor n).1.map (·.2.2) =
+        List.range' (cursorAbs (logC fd.log) req.cursor) (fd.log.readv req.cursor n).1.length ∧
+      (posNext (fd.log.readv req.cursor n).2).1.2 =
+        cursorAbs (logC fd.log) req.cursor + (fd.log.readv req.cursor n).1.length ∧
+      Issued (logC fd.log) (posNext (fd.log.readv req.cursor n).2).1 ∧
+      ((posNext (fd.log.readv req.cursor n).2).2 = true ↔
+        cursorAbs (logC fd.log) req.cursor + (fd.log.readv req.cursor n).1.length = hist.length) := by
+  obtain ⟨fd, hist, hfd, hrep, hiss, hU, _⟩ := tracked_request_sound h1 h2 hr hno hc hreq
+  exact ⟨fd, hist, hfd, hrep, sweep_reads_next_entries fd hist hrep req.cursor n hiss (by omega)⟩
+
+/-- C01.2 `parked_iff_caught_up` for reachable states, without the `Issued` / well-formedness
+    hypothesis on the log: for a non-shared request taken from the tracker of a live connection -/
+theorem parked_iff_caught_up_reachable {cfg : Config} (h1 : 1 ≤ cfg.maxSegmentSize) (h2 : 1 ≤ cfg.maxSegmentCount)
+    {s : RState} (hr : Reachable cfg s) (hno : NoOverflow s) (s' : RState) (id : Nat) (c : Conn) (req req' : DataRequest)
+    (st : ConsumeStatus) (hc : getConn s id = some c) (hreq : req ∈ c.tracker.requests) (hplain : req.group = none)
+    (h : forwardDeviceData s id req = .ok (s', req', st)) (hst : st ≠ .inflightFull) (hbf : st ≠ .bufferFull)
+    (hpos : 0 < s.config.maxOutgoingPacketCount) :
+    ∃ (n : Nat) (fd : FilterData), s.datalog.native[req.filterIdx]? = some fd ∧
+      req'.cursor = (posNext (fd.log.readv req.cursor n).2).1 ∧
+      (st = .filterCaughtup ↔ (posNext (fd.log.readv req.cursor n).2).2 = true) := by
+  obtain ⟨fd, hist, hfd, hrep, hiss, hU, _⟩ := tracked_request_sound h1 h2 hr hno hc hreq
+  refine parked_iff_caught_up s s' id c req req' st hc hplain h hst hbf hpos fun fd' hfd' => ?_
+  rw [hfd] at hfd'; cases hfd'
+  exact ⟨hist, hrep, hiss, hU⟩
+
+/-- C01.2: the start premise `ReqAt` of `delivery_is_prefix_partial` holds for every tracked request of
+    a reachable state whose cursor's segment is still retained (the retention proviso is the only
+    premise left) -/
+theorem req_at_of_reachable {cfg : Config} (h1 : 1 ≤ cfg.maxSegmentSize) (h2 : 1 ≤ cfg.maxSegmentCount)
+    {s : RState} (hr : Reachable cfg s) (hno : NoOverflow s) {id : Nat} {c : Conn} {req : DataRequest}
+    (hc : getConn s id = some c) (hreq : req ∈ c.tracker.requests)
+    (hret : ∀ fd, s.datalog.native[req.filterIdx]? = some fd → (logC fd.log).head ≤ req.cursor.1) :
+    ReqAt req.filterIdx s req.cursor := by
+  obtain ⟨fd, hist, hfd, hrep, hiss, hU, _⟩ := tracked_request_sound h1 h2 hr hno hc hreq
+  exact ⟨fd, hist, hfd, hrep, hiss, hret fd hfd, hU⟩
+
+/-- the no-overflow bound follows from small next offsets (what one checks on a concrete state) -/
+theorem noOverflow_of_nextAbs {s : RState}
+    (h : ∀ fd ∈ s.datalog.native, (logC fd.log).nextAbs + (MAX_INFLIGHT + s.config.maxOutgoingPacketCount) < U64) :
+    NoOverflow s := fun fd hfd hist hrep => by rw [← hrep.nextAbs_eq]; exact h fd hfd
+
+/-- non-vacuity of the `_reachable` theorems: a reachable state below the bound in which a connection
+    tracks a request (CONNECT, SUBSCRIBE `t`, DeviceData) -/
+example : ∃ s, Reachable ⟨10, 1024, 2, 10, .roundRobin⟩ s ∧ NoOverflow s ∧
+    ∃ c req, getConn s 0 = some c ∧ req ∈ c.tracker.requests :=
+  ⟨_, Reachable.ofX [(.connect ⟨0, "a", true, false, 0, none⟩, []), (.push 0 (.subscribe 1 none [⟨"t", 0⟩]), []),
+         (.event 0 .deviceData, [])] rfl,
+    noOverflow_of_nextAbs (by decide), _, ⟨"t", 0, 0, (0, 0), true, none⟩, rfl, by decide⟩
 
 /-- non-vacuity on a concrete state (kernel-evaluated): client `a` holds a non-shared request for
     filter `t` at cursor `(0, 0)`; the filter's log has one entry. The sweep forwards exactly that
